@@ -14,41 +14,45 @@ Definition obs_grace_served (o : ostep) : bool :=
 Definition obs_full_success (o : ostep) : bool :=
   o_served o && match saved_grace o with Some None => true | _ => false end.
 
-(* walk the history, threading the trace-derived outage start *)
-Fixpoint c05_walk (c : cfg) (u : upolicy) (outage : option Z) (steps : list ostep) : bool :=
+(* walk the history, threading the outage start derived from OBSERVATIONS ONLY:
+   a due check that was served although the answers did not confirm it was served under grace. *)
+Fixpoint c05_walk (lower : str -> str) (c : cfg) (u : upolicy) (outage : option Z) (steps : list ostep) : bool :=
   match steps with
   | [] => true
   | o :: rest =>
       let allowed := p_groups (u_rules u) in
       let now := o_now o in
       let g := match outage with Some g => g | None => now end in
-      let step_ok :=
-        match presented o with
-        | None => true
-        | Some s =>
-            (* a due check that was not confirmed is served only for 429/503 answers ... *)
-            (negb (o_served o && due now s) ||
-             (if s_refresh_dl s <? now
-              then refresh_confirmed_b allowed (o_ans o) || refresh_outage_b allowed (o_ans o)
-              else validate_confirmed_b allowed (o_ans o) || validate_outage_b allowed (o_ans o))) &&
-            (* ... and only within the grace TTL of the FIRST such answer, never past the lifetime *)
-            (negb (obs_grace_served o) ||
-             ((now <? g + c_G c + 1) && (now <=? s_lifetime_dl s + 1) &&
-              match saved_grace o with Some (Some g') => close g' g | _ => false end)) &&
-            (* a confirmed check ends the episode *)
-            (negb (o_served o && due now s &&
-                   (if s_refresh_dl s <? now then refresh_confirmed_b allowed (o_ans o)
-                    else validate_confirmed_b allowed (o_ans o))) ||
-             obs_full_success o)
-        end in
-      let outage' := if obs_grace_served o then Some g else if obs_full_success o then None else outage in
-      step_ok && c05_walk c u outage' rest
+      match presented o with
+      | None => c05_walk lower c u outage rest
+      | Some s =>
+          let is_due := due now s in
+          let confirmed := if s_refresh_dl s <? now then refresh_confirmed_b allowed (o_ans o)
+                           else validate_confirmed_b allowed (o_ans o) in
+          let outage_ans := if s_refresh_dl s <? now then refresh_outage_b allowed (o_ans o)
+                            else validate_outage_b allowed (o_ans o) in
+          let gs := o_served o && is_due && negb confirmed in       (* served under grace *)
+          let fs := o_served o && is_due && confirmed in            (* a successful check *)
+          (* everything else about the session is in order (binding, lifetime, rules, refresh token) *)
+          let otherwise_ok :=
+            str_eqb (s_slug s) (c_slug c) && str_eqb (s_upstream s) (r_host (o_req o)) &&
+            (now <=? s_lifetime_dl s - 1) && request_gate lower (u_rules u) (s_email s) &&
+            (negb (s_refresh_dl s <? now) || negb (match s_refresh_tok s with [] => true | _ => false end)) in
+          let step_ok :=
+            (* grace only for 429/503 answers, only within G of the FIRST such answer, never past the lifetime *)
+            (negb gs || (outage_ans && (now <? g + c_G c + 1) && (now <=? s_lifetime_dl s + 1))) &&
+            (* an existing session keeps working during the grace period of the current outage
+               (in particular a later outage, after a success, gets a fresh period) *)
+            (negb (is_due && negb confirmed && outage_ans && otherwise_ok && (now <? g + c_G c - 1)) || o_served o) in
+          let outage' := if gs then Some g else if fs then None else outage in
+          step_ok && c05_walk lower c u outage' rest
+      end
   end.
 
 Definition judge (h : case) : N :=
   let lower := lower_tab (h_tab h) in
   let mism := existsb (step_mismatch lower (h_cfg h) (h_pol h)) (h_steps h) in
-  code mism (c05_walk (h_cfg h) (h_pol h) None (h_steps h)) 0.
+  code mism (c05_walk lower (h_cfg h) (h_pol h) None (h_steps h)) 0.
 
 Definition any {A} (f : A -> bool) (l : list A) : N := if existsb f l then 1 else 0.
 Definition classify (h : case) : N :=
